@@ -33,6 +33,18 @@ def field_writes(prog, field, fns=None):
                         yield f, e, 'byref', None
 
 
+def decided(efs):
+    """The facts of an edge that decide something on their own: a disjunctive composite (`a && b` known false,
+    `a || b` known true) names several atoms without fixing any of them and is left out."""
+    out = []
+    for ef in efs:
+        a = strip(ef[2])
+        if isinstance(a, dict) and a.get('k') == 'bin' and a.get('op') in ('&&', '||') and (a['op'] == '&&') != bool(ef[1]):
+            continue
+        out.append(ef)
+    return out
+
+
 def calls_to(prog, name, fns=None):
     """(Fn, event) for every call whose static callee has the given qualified name."""
     for f in (fns if fns is not None else prog.functions.values()):
@@ -564,7 +576,7 @@ def reject_if(ctx, rid, f, pred, pol, what, construct, success=None, min_edges=1
         for i, s in enumerate(b['succ']):
             if s is None:
                 continue
-            for ef in f.edge_facts(bid, i):
+            for ef in decided(f.edge_facts(bid, i)):
                 if ef[1] == pol and pred(ef[2]):
                     edges.append((bid, i, s, ef))
                     break
@@ -675,7 +687,7 @@ def skip_conditions_exact(ctx, rid, f, loop, is_action, allowed_skip, what, cons
     hit = [None]
 
     def edge_ok(b, i, s):
-        for ef in f.edge_facts(b, i):
+        for ef in decided(f.edge_facts(b, i)):
             for pred, pol in allowed_skip:
                 if ef[1] == pol and pred(ef[2]):
                     return False
@@ -697,7 +709,7 @@ def reached_only_via(ctx, rid, f, e, pred, pol, what, construct):
     satisfies pred with the given polarity (structural guard; unlike guard facts this is not
     affected by later writes)."""
     def edge_ok(b, i, s):
-        return not any(ef[1] == pol and pred(ef[2]) for ef in f.edge_facts(b, i))
+        return not any(ef[1] == pol and pred(ef[2]) for ef in decided(f.edge_facts(b, i)))
     r = f.find_path(None, lambda x: x is e, from_succ=f.entry, edge_ok=edge_ok, sensitive=False)
     ctx.check(rid, r is None, f.name, construct, f.where(e),
               '%s — `%s` in %s' % (what, e.get('src', e.get('name', ''))[:70], f.name),
@@ -812,7 +824,7 @@ def reached_only_through(ctx, rid, f, is_event, allowed_edge, what, construct):
     ok_all = True
     for t in tg:
         r = f.find_path(None, lambda x: x is t, from_succ=f.entry, sensitive=False,
-                        edge_ok=lambda b, i, s2: not allowed_edge(f.edge_facts(b, i)))
+                        edge_ok=lambda b, i, s2: not allowed_edge(decided(f.edge_facts(b, i))))
         ok = r is None
         ok_all &= ok
         ctx.check(rid, ok, f.name, construct, f.where(t), '%s — in %s' % (what, f.name),
